@@ -16,6 +16,7 @@ from fractions import Fraction
 
 from .. import common, gen_kern, gen_mei, gen_score, tlc
 from .c12 import uniq
+from .c03 import ties_expressible
 
 SIGN_NAME = {0: "G", 1: "F", 2: "C"}
 
@@ -319,9 +320,11 @@ def main(chk):
             part = gen_score.make_part(score, rng, pid="P1", divs=rng.choice([1, 2, 4] if fmt == "mei" else [1, 2, 4, 6, 12]), n_measures=rng.randint(1, 3),
                                        voices=rng.choice([1, 2]), staves=rng.choice([1, 2]), pickup=False, ts_change=False, slurs=False, grace=False,
                                        ties=rng.random() < 0.5, chords=rng.random() < 0.5, max_notes=10 ** 6, rests=rng.random() < 0.5)
+            # every written duration is a single note value (the writers have no other way to write it), and ties are
+            # expressible by pitch (@tie in MEI and the tie marks of kern pair by pitch, like MusicXML: see C03)
             if all((estimate_symbolic_duration(n.duration, int(part.quarter_duration_map(n.start.t))) or {}).get("type")
-                   for n in list(part.notes_tied) + list(part.rests)):
-                break       # every written duration is a single note value (the writers have no other way to write it)
+                   for n in list(part.notes_tied) + list(part.rests)) and ties_expressible(score, part):
+                break
         # a voice need not be filled with rests: in one case out of six the rests inside the second voice are taken out
         gaps = False
         if k % 6 in (2, 3):
